@@ -232,7 +232,7 @@ theorem withRepetition_merge_denote_partial (body : PT) (c k : Expr) (cons : Lis
       denote (withRepetitionExplicit (.rep none body c [] cons) k) σ mm cm :=
   withRepetition_merge_denote body c k cons σ mm cm n m hcons hc hk
 
-/-- PF-27: merging the counts in `RepetitionPT.with_repetition` is wrong when both counts are negative
+/-- PF-C05d: merging the counts in `RepetitionPT.with_repetition` is wrong when both counts are negative
 (n = -2, k = -3: the merged template lasts 6, the explicit nesting is empty) -/
 theorem withRepetition_merge_counterexample :
     (match denote (withRepetition (.rep none (.const none (.lit 1) [("A", .lit 1)] []) (.var "n") [] []) (.var "k"))
